@@ -266,6 +266,14 @@ def _mask_times(s: str) -> str:
     return s
 
 
+def _waiter_sans_time(w: Any) -> str:
+    """a waiter without the first_attempt_at / last_failed_at of the invocation suspended in it"""
+    return "W %s %s %d %s %d %s %d %s %s %s" % (
+        enc.waiter_id(w.waiter_id), enc.ev(w.event), ET.TY_ID[w.waiting_for_event], enc.req(w.requirements),
+        1 if w.has_requirements else 0, enc.opt_ev(w.resolved_event), 1 if w.timed_out else 0,
+        enc.num(getattr(w, "attempts", 0)), enc.exc(getattr(w, "last_exception", None)), enc.rc(getattr(w, "recovery_counts", {})))
+
+
 def state_sans_time(st: Any) -> str:
     """canonical state with first_attempt_at / last_failed_at erased"""
     import copy
@@ -279,10 +287,10 @@ def state_sans_time(st: Any) -> str:
         ip = []
         for i in ws.in_progress:
             ip.append("I %s %d %s %s %d %s %s" % (enc.ev(i.event), i.worker_id, enc.collected(i.shared_state.collected_events),
-                                                  enc.lst([enc.waiter(w) for w in i.shared_state.collected_waiters]), i.attempts,
+                                                  enc.lst([_waiter_sans_time(w) for w in i.shared_state.collected_waiters]), i.attempts,
                                                   enc.exc(i.last_exception), enc.rc(i.recovery_counts)))
         parts.append("S %s %s %s %s" % (enc.lst(q), enc.lst(ip), enc.collected(ws.collected_events),
-                                        enc.lst([enc.waiter(w) for w in ws.collected_waiters])))
+                                        enc.lst([_waiter_sans_time(w) for w in ws.collected_waiters])))
     return re.sub(r" F (\d+) (\d+) (\d+) (\d+) (-?\d+) (-?\d+)", r" F \1 \2 \3 \4 t t", " ".join(parts))
 
 
@@ -344,7 +352,8 @@ def mon_c11(tr: Trace, every: int = 1) -> list[Violation]:
         def strip(d: dict) -> dict:
             d = json.loads(json.dumps(d, default=str))
             for w in d.get("workers", {}).values():
-                for a in w.get("queue", []):
+                # timestamps aside: queued attempts and the attempt records kept in waiters
+                for a in list(w.get("queue", [])) + list(w.get("collected_waiters", [])):
                     a["first_attempt_at"] = None
                     a["last_failed_at"] = None
             d.pop("state", None)
